@@ -201,17 +201,18 @@ PROPS["C11"] = {
 PROPS["C13"] = {
     "level": "exploration",
     "technique": "generated directories and paging sessions (rapid) with an incarnation-set oracle (exactly-once for entries present throughout, validity of every returned entry against the reference, progress, termination, exact replay from earlier cookies); concurrent enumerate-while-mutating variant",
-    "level_text": "Directories of 0..150 entries with names of 2..112 bytes, freed slots in the middle and slot reuse, optionally after a restart; sessions page READDIR or READDIRPLUS with count/dircount/maxcount from {0,1,10,64,100,200,300,512,1000,4096,65536}, always passing back the last cookie, with entries added and removed between pages in a third of the sessions. Oracle: every call returns an entry or eof; the session ends within slots+200 calls; every returned (name, file id[, handle, attributes]) is that of the object the name has at that moment in the reference; every entry that stays in the directory throughout is returned exactly once. Without mutations, resuming from three earlier cookies (with other size limits) must reproduce exactly the entries that followed. Concurrent unit: a READDIR client enumerates four times while a second client creates and removes other names (reusing freed slots); entries it never touches must each appear exactly once per enumeration. Directories of 520 and 700 names of 100-112 bytes (more than any reply or internal listing budget) are enumerated after a restart or cache eviction, and every listed entry is cross-checked with LOOKUP of its name (same file id). A further unit builds directories of 16 600-16 840 entries, which reach into the double-indirect range of the directory's inode, enumerates them completely with READDIR and (from slot 16 000 on) READDIRPLUS against a map of name -> (file id, handle), frees and re-takes slots at the range boundary and far out, restarts, and enumerates again. A last unit works on an inode table that is full but for 3-6 numbers, so that within one server uptime every new directory receives the number a directory or file had a few requests earlier (the old in-memory inode still cached): rounds of MKDIR, 0-5 entries, paged READDIR and READDIRPLUS against a map plus LOOKUP cross-check, removal, with files holding entry-like data taking the freed number and blocks in between.",
+    "level_text": "Directories of 0..150 entries with names of 2..112 bytes, freed slots in the middle and slot reuse, optionally after a restart; sessions page READDIR or READDIRPLUS with count/dircount/maxcount from {0,1,10,64,100,200,300,512,1000,4096,65536}, always passing back the last cookie, with entries added and removed between pages in a third of the sessions. Oracle: every call returns an entry or eof; the session ends within slots+200 calls; every returned (name, file id[, handle, attributes]) is that of the object the name has at that moment in the reference; every entry that stays in the directory throughout is returned exactly once. Without mutations, resuming from three earlier cookies (with other size limits) must reproduce exactly the entries that followed. Concurrent unit: a READDIR client enumerates four times while a second client creates and removes other names (reusing freed slots); entries it never touches must each appear exactly once per enumeration. Directories of 520 and 700 names of 100-112 bytes (more than any reply or internal listing budget) are enumerated after a restart or cache eviction, and every listed entry is cross-checked with LOOKUP of its name (same file id). A further unit builds directories of 16 600-16 840 entries, which reach into the double-indirect range of the directory's inode, enumerates them completely with READDIR and (from slot 16 000 on) READDIRPLUS against a map of name -> (file id, handle), frees and re-takes slots at the range boundary and far out, restarts, and enumerates again. A last unit works on an inode table that is full but for 3-6 numbers, so that within one server uptime every new directory receives the number a directory or file had a few requests earlier (the old in-memory inode still cached): rounds of MKDIR, 0-5 entries, paged READDIR and READDIRPLUS against a map plus LOOKUP cross-check, removal, with files holding entry-like data taking the freed number and blocks in between. A window unit (60 enumerated cases) holds a READDIRPLUS at each of its first ten lock/commit points or device reads on a cold cache while another client removes a listed entry and makes a directory, file or symlink elsewhere that receives the freed inode number at once: every entry of the held listing must carry the handle, file id and attributes its name had in this directory.",
     "level_note": "Not asserted: that a name appears only once when it was removed and re-created during the enumeration, or that a reply fits in count bytes. The concurrent unit uses READDIR only (READDIRPLUS under concurrency is known finding KF1).",
     "rule": ("unit = one paging session (or one concurrent enumeration). Non-trivial: the session took >=3 pages or had a mutation between pages; concurrent: always (mutator active). distinct = FNV hash of (history, session index)."),
     "assumptions": COMMON_ASSUMPTIONS,
-    "required_classes": ["enumerations_of_a_directory_reaching_the_double_indirect_range", "directory_of_500_or_more_long_names", "session_of_3_or_more_pages", "session_with_mutations_between_pages", "session_readdirplus", "resumed_from_an_earlier_cookie", "enumerations_during_concurrent_updates", "directories_on_the_number_of_a_directory_removed_in_this_uptime"],
+    "required_classes": ["enumerations_of_a_directory_reaching_the_double_indirect_range", "directory_of_500_or_more_long_names", "session_of_3_or_more_pages", "session_with_mutations_between_pages", "session_readdirplus", "resumed_from_an_earlier_cookie", "enumerations_during_concurrent_updates", "directories_on_the_number_of_a_directory_removed_in_this_uptime", "plus_window_cases_where_the_removed_entrys_number_was_reused"],
     "units": [
         {"test": "^TestRegressC13$", "norapid": True, "quick": {"shards": 1}, "thorough": {"shards": 1}},
         {"test": "^TestC13Paging$", "quick": {"checks": 150, "shards": 8}, "thorough": {"checks": 1500, "shards": 12}},
         {"test": "^TestC13Concurrent$", "quick": {"checks": 100, "shards": 6}, "thorough": {"checks": 1000, "shards": 8}},
         {"test": "^TestC13Huge$", "quick": {"checks": 2, "shards": 3}, "thorough": {"checks": 20, "shards": 8}},
         {"test": "^TestC13Reuse$", "quick": {"checks": 12, "shards": 4}, "thorough": {"checks": 400, "shards": 8}},
+        {"test": "^TestC13PlusWindow$", "norapid": True, "quick": {"shards": 4}, "thorough": {"shards": 4}},
     ],
 }
 
